@@ -47,6 +47,25 @@ CHECKS = {
         technique="Lean 4 proof (checker table vs lowering table, all type terms) + exhaustive operator-cell correspondence through the real compiler",
         ref="§5 C02",
     ),
+    "C05": dict(
+        text=("Proof (Lean 4) about the heap ledger DDP.Ledger (the contract of ddp_reallocate(pointer, oldSize, newSize) as a state "
+              "machine over the set of live blocks): a released block cannot be released or resized again (no_double_release), a "
+              "resize/release is accepted only with the block's true size (sizes_true), what is not owned is refused (foreign_refused), "
+              "live addresses stay distinct (step_distinct), along every accepted trace live = obtained - given up (balance), hence a "
+              "trace accepted from the empty heap that ends with no live block obtained exactly as many blocks as it released "
+              "(exactly_once). Ties: the same machine in C (rtharness/ledger.c) is linked into compiled programs with "
+              "--wrap=ddp_reallocate; (1) every real trace and thousands of mutated, contract-breaking traces (replayed through the C "
+              "ledger with a scripted allocator) are judged by both machines and must get the same verdict; (2) programs: control-flow "
+              "matrix {for, for with step, while, do-while, repeat, for-each} x {normal end, Verlasse, Fahre fort, both from a nested "
+              "block} x temporaries of five non-primitive kinds in header, condition and body; early return from nested scopes; "
+              "short-circuit, conditional expressions, discarded results, Variable boxing, fields, character assignment, Laufzeitfehler "
+              "midway; the aliasing matrix of C08; random programs — each with the ledger (no contract violation, nothing live at "
+              "normal exit) and under ASan/UBSan/LSan. Seven heap defects found with this machinery were repaired (fix: commits)."),
+        note=TB + "The code generator's ownership bookkeeping (scopes, temporaries, claim-or-copy) is not modelled: it is reached through "
+             "the programs only (partial). Memory obtained outside ddp_reallocate is outside the ledger; ASan's verdict is trusted.",
+        technique="Lean 4 proof about the heap-contract state machine + the same machine linked into compiled programs, both run on the same traces; sanitizers",
+        ref="§5 C05",
+    ),
     "C06": dict(
         text=("Proof (Lean 4) over the REGENERATED comparison facts (translator re-extracts, on every run, the icmp predicates, operand "
               "order, subtraction constants and clamp skeleton that compiler.go / list_types.go emit) interpreted over BitVec 64: for all "
